@@ -198,6 +198,9 @@ impl<'transient, 'lifespan: 'transient> FormulaParser {
                         };
 
                         let elt = self.parse_element_from_string(string, periodic_table)?;
+                        if isotope != 0 && !elt.isotopes.contains_key(&isotope) {
+                            return Err(FormulaParserError::IsotopeCountMalformed);
+                        }
                         let elt_spec = ElementSpecification {
                             element: elt,
                             isotope,
@@ -231,6 +234,9 @@ impl<'transient, 'lifespan: 'transient> FormulaParser {
                                     return Err(FormulaParserError::IsotopeCountMalformed);
                                 }
                             };
+                        if isotope != 0 && !elt.isotopes.contains_key(&isotope) {
+                            return Err(FormulaParserError::IsotopeCountMalformed);
+                        }
                         let elt_spec = ElementSpecification {
                             element: elt,
                             isotope,
@@ -338,6 +344,9 @@ impl<'transient, 'lifespan: 'transient> FormulaParser {
                     0
                 };
                 let elt = self.parse_element_from_string(string, periodic_table)?;
+                if isotope != 0 && !elt.isotopes.contains_key(&isotope) {
+                    return Err(FormulaParserError::IsotopeCountMalformed);
+                }
                 let elt_spec = ElementSpecification {
                     element: elt,
                     isotope,
@@ -352,6 +361,9 @@ impl<'transient, 'lifespan: 'transient> FormulaParser {
                         return Err(FormulaParserError::IsotopeCountMalformed);
                     }
                 };
+                if isotope != 0 && !elt.isotopes.contains_key(&isotope) {
+                    return Err(FormulaParserError::IsotopeCountMalformed);
+                }
                 let elt_spec = ElementSpecification {
                     element: elt,
                     isotope,
